@@ -9,6 +9,8 @@ f = F.load()
 t = codegen.all_tables(f)
 out = {"_source": "frozen from the reviewed tree (accessors agree with the crate's snapshots taken from upstream lipe_find3 output); a change here is a change of the emitted program by definition",
        "tables": {k: codegen.plain(v) for k, v in t.items()}}
+out["elements"] = {k: [dict(row=e["row"], index=e["index"], sep=e["sep"], of=e["of"], rows=e["rows"], fails=e["fails"]) for e in codegen.element_tables(v)] for k, v in t.items()}
+out["elements"] = {k: v for k, v in out["elements"].items() if v}
 sk = emit.skeleton(f)
 out["skeleton"] = {"tokens": emit.scheme_tokens(sk["text"]), "lipe_scan_args": sk["lipe_scan_args"]}
 json.dump(out, open(os.path.join(F.VERIF, "spec", "codegen.json"), "w"), indent=1, ensure_ascii=False)
